@@ -178,6 +178,18 @@ class ExcV:
         return f"Exc<{self.cls}>"
 
 
+class CondV:
+    """Conditional value `a if c else b` whose branches have different kinds (pure expressions only)."""
+
+    __slots__ = ("c", "a", "b")
+
+    def __init__(self, c, a, b):
+        self.c, self.a, self.b = c, a, b
+
+    def __repr__(self):
+        return f"Cond<{self.a!r}|{self.b!r}>"
+
+
 class WellV:
     """Abstract well-id string: single-letter row with 0-based index r (0..25), column number c >= 1
     printed with at least two digits.  r, c are ints or z3 Int terms."""
